@@ -671,3 +671,42 @@ v("c08-twin-twin-drop-hoisted-local", "C08", PB,
 v("c08-twin-loop-continue-form", "C08", PB,
   "            if c not in merged_key_cols:\n                is_null = res[c].isnull()\n                res.loc[is_null, c] = res.loc[is_null, c + \"_tmp_right_col\"]\n                res = res.drop(c + \"_tmp_right_col\", axis=1, inplace=False)\n",
   "            if c in merged_key_cols:\n                continue\n            is_null = res[c].isnull()\n            res.loc[is_null, c] = res.loc[is_null, c + \"_tmp_right_col\"]\n            res = res.drop(c + \"_tmp_right_col\", axis=1, inplace=False)\n", expect="silent")
+
+# ---------------------------------------------------------------- C03
+PM = "polars_model.py"
+v("c03-max-calls-min", "C03", PM, "        \"max\": lambda x: x.max(),", "        \"max\": lambda x: x.min(),")
+v("c03-first-calls-last", "C03", PM, "        \"first\": lambda x: x.first(),", "        \"first\": lambda x: x.last(),")
+v("c03-bfill-forward", "C03", PM, "        \"bfill\": lambda x: x.fill_null(strategy=\"backward\"),", "        \"bfill\": lambda x: x.fill_null(strategy=\"forward\"),")
+v("c03-minus-swapped", "C03", PM, "        \"-\": lambda a, b: a - b,", "        \"-\": lambda a, b: b - a,")
+v("c03-lt-is-le", "C03", PM, "        \"<\": lambda a, b: a < b,", "        \"<\": lambda a, b: a <= b,")
+v("c03-floordiv-is-div", "C03", PM, "        \"//\": lambda a, b: a // b,", "        \"//\": lambda a, b: a / b,")
+v("c03-if-else-null-cond-takes-else", "C03", PM,
+  "        \"if_else\": lambda a, b, c: pl.when(a.is_null())\n        .then(pl.lit(None))\n        .otherwise(pl.when(a).then(b).otherwise(c)),",
+  "        \"if_else\": lambda a, b, c: pl.when(a).then(b).otherwise(c),")
+v("c03-where-null-cond-null", "C03", PM,
+  "        \"where\": lambda a, b, c: pl.when(a.is_null())\n        .then(c)\n        .otherwise(pl.when(a).then(b).otherwise(c)),",
+  "        \"where\": lambda a, b, c: pl.when(a.is_null())\n        .then(pl.lit(None))\n        .otherwise(pl.when(a).then(b).otherwise(c)),")
+v("c03-twin-where-simplified", "C03", PM,
+  "        \"where\": lambda a, b, c: pl.when(a.is_null())\n        .then(c)\n        .otherwise(pl.when(a).then(b).otherwise(c)),",
+  "        \"where\": lambda a, b, c: pl.when(a).then(b).otherwise(c),", expect="silent")
+v("c03-fmax-min-horizontal", "C03", PM, "            \"fmax\": lambda *args: pl.max_horizontal(args),", "            \"fmax\": lambda *args: pl.min_horizontal(args),")
+v("c03-project-count-cumsum", "C03", PM,
+  "            \"count\": lambda: pl.col(_da_temp_one_column_name).sum(),\n            \"_count\": lambda: pl.col(_da_temp_one_column_name).sum(),",
+  "            \"count\": lambda: pl.col(_da_temp_one_column_name).cumsum(),\n            \"_count\": lambda: pl.col(_da_temp_one_column_name).sum(),")
+v("c03-size-over-zero-column", "C03", PM,
+  "        \"size\": lambda x: pl.col(_da_temp_one_column_name).sum(),", "        \"size\": lambda x: pl.col(_da_temp_zero_column_name).sum(),")
+v("c03-default-callable", "C03", PM,
+  "        if f is None:\n            raise ValueError(f\"failed to lookup {op}\")", "        if f is None:\n            f = lambda *a: a[0]")
+v("c03-lookup-wrong-key", "C03", PM,
+  "                f = self.polars_model.impl_map_arbitrary_arity[op.op]", "                f = self.polars_model.impl_map_arbitrary_arity[op.op.lower()]", expect="silent")
+v("c03-except-exception", "C03", PM,
+  "                f = self.polars_model.impl_map_arbitrary_arity[op.op]\n            except KeyError:", "                f = self.polars_model.impl_map_arbitrary_arity[op.op]\n            except Exception:")
+v("c03-join-full-as-left", "C03", PM, "        if how == \"full\":\n            how = \"outer\"", "        if how == \"full\":\n            how = \"left\"")
+v("c03-right-join-keys-unswapped", "C03", PM,
+  "                left_on=op.on_b,\n                right_on=op.on_a,\n                how=\"left\",", "                left_on=op.on_a,\n                right_on=op.on_b,\n                how=\"left\",")
+v("c03-right-join-inner", "C03", PM,
+  "                left_on=op.on_b,\n                right_on=op.on_a,\n                how=\"left\",", "                left_on=op.on_b,\n                right_on=op.on_a,\n                how=\"inner\",")
+v("c03-order-rows-flags-inverted", "C03", PM,
+  "True if ci in set(op.reverse) else False for ci in op.order_by", "False if ci in set(op.reverse) else True for ci in op.order_by")
+v("c03-step-wrong-node-name", "C03", PM,
+  "        if op.node_name != \"OrderRowsNode\":", "        if op.node_name == \"ExtendNode\":")
